@@ -107,3 +107,11 @@ reg("C27", "model_checking", "TLA+ spec Routing model-checked with TLC (and its 
     "plus random bursts, and every trace (busy frames, drawn random extensions, transmissions, confirmations, returns) must be a behaviour of the spec.",
     "Trusted: TLC, the virtual-time loop, the fake multicast socket. The busy-frame counter and its decay follow KNX 03.08.05 2.3.5 as modelled in Routing.tla.",
     "DESIGN.md section 5 C27")
+
+reg("C32", "model_checking", "TLA+ spec DevMgmt model-checked with TLC; trace validation of the real UDP/TCP device management connections against a scripted server under virtual time",
+    "DevMgmt (one outstanding request, repetition with the same counter, acceptance, eligible answers, close) is model-checked against an arbitrary server; "
+    "the real UDPDeviceManagementConnection and TCPDeviceManagementConnection run every pair of 17 server reactions for sequential and concurrent "
+    "read/write requests, user disconnect() and TCP loss at instants around the 10 s waits, plus random scripts; every trace (requests on the wire with "
+    "counters, acknowledgements, frames passed up, indication callbacks, results with the value returned and its time) must be a behaviour of the spec.",
+    "Trusted: TLC, the virtual-time loop, the scripted server (numbers its frames correctly; every answer carries a distinct value so the result identifies the answer used).",
+    "DESIGN.md section 5 C32")
